@@ -140,7 +140,7 @@ class SyncedEnforcer:
 
     def build_role_links(self):
         """manually rebuild the role inheritance relations."""
-        with self._rl:
+        with self._wl:
             return self._e.build_role_links()
 
     def enforce(self, *rvals):
